@@ -153,8 +153,8 @@ void sequences(vf::Ctx& c, const char* tname, int depth, size_t firstOp, bool lo
   std::vector<P> pts(4);
   for (size_t d = 0; d < DIM; ++d) { pts[0][d] = (S)(-1.3 + 0.4 * d); pts[1][d] = (S)(2.1 - 0.7 * d); pts[2][d] = (d == 0) ? (S)-1.3 : (S)1.9; pts[3][d] = (S)(0.125 + 0.25 * d); }
   // ops: 0-3 setOrigin(p), 4-7 setEnd(p), 8-11 cast(p), 12-27 cast(o,e), 28 cast(), 29 next(), 30/31 setGridIndexMapping(grid A / grid B)
-  const int NOPS = 38;   // 34: cast(getEndPoint(), p1) - polyline chaining, the origin argument aliases the caster's end point; 35: cast(p2, getOriginPoint()) - back to the previous origin, the end argument aliases the caster's origin; 36/37: the grid object the caster points to is re-assigned in place to the other / the first resolution; 32: assign the caster to another long-lived caster (bound to the other grid, with a past) and continue with that one; 33: continue with a copy-constructed caster
-  auto opname = [&](int op) { char b[64]; if (op < 4) snprintf(b, 64, "setOriginPoint(p%d)", op); else if (op < 8) snprintf(b, 64, "setEndPoint(p%d)", op - 4); else if (op < 12) snprintf(b, 64, "cast(p%d)", op - 8); else if (op < 28) snprintf(b, 64, "cast(p%d,p%d)", (op - 12) / 4, (op - 12) % 4); else if (op == 28) snprintf(b, 64, "cast()"); else if (op == 29) snprintf(b, 64, "next()"); else if (op < 32) snprintf(b, 64, "setGridIndexMapping(grid%c)", op == 30 ? 'A' : 'B'); else if (op < 34) snprintf(b, 64, "%s", op == 32 ? "other = caster; continue with other" : "continue with a copy-constructed caster"); else if (op == 34) snprintf(b, 64, "cast(getEndPoint(),p1)"); else if (op == 35) snprintf(b, 64, "cast(p2,getOriginPoint())"); else snprintf(b, 64, "grid object re-assigned in place (%s resolution)", op == 36 ? "other" : "first"); return std::string(b); };
+  const int NOPS = 39;   // 38: switch to the other grid and cast from the point of the NEW grid that has the same cell indexes as the current origin had in the old one; 34: cast(getEndPoint(), p1) - polyline chaining, the origin argument aliases the caster's end point; 35: cast(p2, getOriginPoint()) - back to the previous origin, the end argument aliases the caster's origin; 36/37: the grid object the caster points to is re-assigned in place to the other / the first resolution; 32: assign the caster to another long-lived caster (bound to the other grid, with a past) and continue with that one; 33: continue with a copy-constructed caster
+  auto opname = [&](int op) { char b[64]; if (op < 4) snprintf(b, 64, "setOriginPoint(p%d)", op); else if (op < 8) snprintf(b, 64, "setEndPoint(p%d)", op - 4); else if (op < 12) snprintf(b, 64, "cast(p%d)", op - 8); else if (op < 28) snprintf(b, 64, "cast(p%d,p%d)", (op - 12) / 4, (op - 12) % 4); else if (op == 28) snprintf(b, 64, "cast()"); else if (op == 29) snprintf(b, 64, "next()"); else if (op < 32) snprintf(b, 64, "setGridIndexMapping(grid%c)", op == 30 ? 'A' : 'B'); else if (op < 34) snprintf(b, 64, "%s", op == 32 ? "other = caster; continue with other" : "continue with a copy-constructed caster"); else if (op == 34) snprintf(b, 64, "cast(getEndPoint(),p1)"); else if (op == 35) snprintf(b, 64, "cast(p2,getOriginPoint())"); else if (op < 38) snprintf(b, 64, "grid object re-assigned in place (%s resolution)", op == 36 ? "other" : "first"); else snprintf(b, 64, "setGridIndexMapping(other); cast(same-index point, p1)"); return std::string(b); };
   if (longRun) depth = 30;
   const int pattern[10] = {13, 10, 29, 24, 28, 31, 18, 7, 8, 30};   // cast(p0,p1) cast(p2) next() cast(p3,p0) cast() setGrid(B) cast(p1,p2) setEndPoint(p3) cast(p0) setGrid(A)
   uint64_t total = 1; if (longRun) total = (uint64_t)depth * NOPS + 1; else for (int i = 1; i < depth; ++i) total *= NOPS;
@@ -175,7 +175,7 @@ void sequences(vf::Ctx& c, const char* tname, int depth, size_t firstOp, bool lo
       int op = seq[i];
       // the model only tracks what the documented preconditions need: has an origin been set, and which
       if (!originSet && (op >= 4 && op < 12)) break;        // setEndPoint / cast(e) need an origin: outside the statement
-      if ((op == 34 && !endSet) || (op == 35 && !originSet)) break;   // chaining needs a previous end point / origin
+      if ((op == 34 && !endSet) || ((op == 35 || op == 38) && !originSet)) break;   // chaining needs a previous end point / origin
       c.transitions();
       auto params = [&]() { std::vector<std::string> h; for (int j = 0; j <= i; ++j) h.push_back(opname(seq[j])); return vf::JO().str("type", tname).i("dim", DIM).strs("history", h).done(); };
       VectorOfEigenVector<I> got; bool isCast = false; P o = curO, e = P::Zero();
@@ -188,6 +188,12 @@ void sequences(vf::Ctx& c, const char* tname, int depth, size_t firstOp, bool lo
       else if (op < 32) { cur = op == 30 ? &g : &gB; curCfg = op == 30 ? &gc : &gcB; rc.setGridIndexMapping(cur); originSet = false; }   // origin / end indexes belong to the previous grid: an origin must be set again
       else if (op == 34) { o = curE; e = pts[1]; got = rc.cast(rc.getEndPoint(), pts[1]); originSet = true; curO = o; isCast = true; }
       else if (op == 35) { o = pts[2]; e = curO; got = rc.cast(pts[2], rc.getOriginPoint()); originSet = true; curO = o; isCast = true; }
+      else if (op == 38) {
+        I idx = rc.getOriginPointIndexes(); if (cur == &g && curCfg != &gc) break;   // (grid A currently re-assigned to the other resolution: keep the bookkeeping simple)
+        GridIndexMapping<S, DIM>* nw = cur == &g ? &gB : &g; const GridCfg* ncfg = cur == &g ? &gcB : &gc; auto Nn = nw->getNumberOfCellsAlongAxes();
+        bool fits = true; for (size_t d = 0; d < DIM; ++d) if (idx[d] + 1 >= Nn[d] || idx[d] == 0) fits = false; if (!fits) break;
+        P q = cell_centre<S, DIM>(*nw, *ncfg, idx); for (size_t d = 0; d < DIM; ++d) q[d] += (S)(0.3 * ncfg->res);
+        cur = nw; curCfg = ncfg; rc.setGridIndexMapping(cur); o = q; e = pts[1]; got = rc.cast(q, pts[1]); originSet = true; curO = q; isCast = true; }
       else if (op >= 36) { if (cur != &g) break; g = make_grid<S, DIM>(op == 36 ? gcB : gc); curCfg = op == 36 ? &gcB : &gc; originSet = false; endSet = false; }   // same object, same address, the caster is not told
       else if (op == 32) { *otherp = *rcp; std::swap(rcp, otherp); }   // the copy keeps grid, origin and end of the original
       else { std::unique_ptr<RayCasting<S, DIM>> cp(new RayCasting<S, DIM>(*rcp)); otherp = std::move(rcp); rcp = std::move(cp); }
@@ -268,7 +274,7 @@ const std::vector<Case>& cases(bool th) {
     bool is3 = t & 1; int ng = is3 ? n3 : n2;
     for (int gI = 0; gI < ng; ++gI) { size_t nb = 16; for (size_t b = 0; b < nb; ++b) v.push_back({0, t, gI, b, nb, 0, 0}); }
   }
-  for (int t = 0; t < 4; ++t) for (size_t f = 0; f < 38; ++f) v.push_back({1, t, 0, 0, 0, th ? 4 : 3, f});
+  for (int t = 0; t < 4; ++t) for (size_t f = 0; f < 39; ++f) v.push_back({1, t, 0, 0, 0, th ? 4 : 3, f});
   for (int t = 0; t < 4; ++t) v.push_back({1, t, 0, 0, 0, -1, 0});   // deviation-bounded long run
   for (int t = 0; t < 4; ++t) v.push_back({2, t, 0, 0, 0, 0, 0});    // near-corner rays and long 3D rays
   return v;
@@ -314,7 +320,7 @@ std::string vf_describe(const std::string& tier) {
   o.str("near_corner_rays", "grids 0.01x2001, 0.25x2001 (2D), 0.1x201: origins at the centres of cells {1,N/2,N-11,N-2} x {7,N/3,N-9}, end = origin + m res ((1+d), 1 [, 1-d]) for m in {1,2,5}, d in {+-0.004,+-0.012,+-0.018}, all sign combinations (rays passing a few per cent of a cell beside the corners); 3D 0.01x2001: 240 rays of 3000-5500 cells ending 1 % / 0.3 % inside a cell next to the entry face of one axis and the exit face of another");
   o.str("fresh_caster_forms", "constructed on the grid / default-constructed then setGridIndexMapping / used on another grid then moved (rotating over the origin-end pairs)");
   o.str("tolerance", "(cells visited + 4) ulp(max(range,|coord|)) + 4 ulp(|coord|): worst-case accumulation of tMax += tDelta");
-  o.i("sequence_depth", th ? 4 : 3).str("sequence_ops", "setOriginPoint(p0..3), setEndPoint(p0..3), cast(p), cast(p,q), cast(), next(), setGridIndexMapping(A|B), assign to another long-lived caster and continue with it, continue with a copy, cast(getEndPoint(),p) and cast(p,getOriginPoint()) with an argument aliasing the caster, the grid object re-assigned in place to another resolution = 38 ops (two grids of different resolution); all sequences, all four instantiations; differential oracle vs fresh caster + full geometric oracle; plus a fixed script of 30 operations and every variant with ONE position replaced by any operation");
+  o.i("sequence_depth", th ? 4 : 3).str("sequence_ops", "setOriginPoint(p0..3), setEndPoint(p0..3), cast(p), cast(p,q), cast(), next(), setGridIndexMapping(A|B), assign to another long-lived caster and continue with it, continue with a copy, cast(getEndPoint(),p) and cast(p,getOriginPoint()) with an argument aliasing the caster, the grid object re-assigned in place to another resolution, a switch to the other grid followed by a cast from the point that has the same cell indexes there = 39 ops (two grids of different resolution); all sequences, all four instantiations; differential oracle vs fresh caster + full geometric oracle; plus a fixed script of 30 operations and every variant with ONE position replaced by any operation");
   return o.done();
 }
 
